@@ -48,6 +48,20 @@ theorem write_refusal_codes (n : Node) (idx sub : Nat) (data : Bytes) :
   · intro obj ho hw; simp [setData, ho, hw]
   · intro obj ho hw hn hl; simp [setData, ho, hw, hn, hl]
 
+/-- a download the dictionary would accept but that a write callback of the application refuses
+    by raising `SdoAbortedError(code)`: `set_data` answers with exactly that code (and by
+    `refused_write_inert` the client sees one abort frame with it and the node is unchanged) -/
+theorem callback_refusal_code (n : Node) (idx sub code : Nat) (data : Bytes) (obj : VarDesc)
+    (ho : findObject n (some idx) (some sub) = .ok obj) (hw : accWritable obj.access = true)
+    (hl : isNumberType obj.dtype = true → 8 * data.length = Codec.bitLen obj.dtype)
+    (hr : lookup (idx, sub) n.refuse = some code) :
+    setData n (some idx) (some sub) data true = .error (.abort code) := by
+  unfold setData
+  rw [ho]
+  by_cases hn : isNumberType obj.dtype = true
+  · simp [hw, hn, hl hn, hr]
+  · simp [hw, hn, hr]
+
 theorem access_codes :
     accReadable 2 = false ∧ accWritable 1 = false ∧ accWritable 3 = false ∧
     accReadable 0 = true ∧ accReadable 1 = true ∧ accReadable 3 = true ∧
